@@ -135,12 +135,30 @@ LINTS = [
      "a method that returns a new object made from self returns self, or shares self's dictionaries with it"),
     ("shared-container", lints.shared_mutable_containers, {"C07"},
      "a class-level container or a mutable default argument is changed through instances"),
+    ("first-wins-memo", lints.first_wins_class_memo, {"C07"},
+     "a class attribute is filled once per process and read by every later run"),
     ("scope-from-other-key", lints.scope_from_other_key, BEHAVIOURAL,
      "a language's name-scope prefix is derived from another language's prefix of the parent"),
     ("language-spelling", lints.language_spelling, BEHAVIOURAL,
      "a language value is compared with \"c++\" after it was normalised to \"cxx\""),
     ("write-only-key", lints.write_only_key, {"C01", "C04"},
      "a key is stored in the one of attrs / metaattrs that nobody reads it from"),
+    ("odd-source", lints.odd_source_in_copy_run, BEHAVIOURAL | {"C15"},
+     "one statement of a run of same-shaped attribute copies takes its value from another object or another attribute"),
+    ("sibling-assignments", lints.sibling_assignments_diverge, BEHAVIOURAL,
+     "one of several sibling fields that get the same value is assigned under a condition of its own"),
+    ("break-after-match", lints.break_after_membership_match, BEHAVIOURAL | {"C17"},
+     "a loop that applies the entries of a table to the items stops after the first match"),
+    ("paired-writes", lints.paired_key_writes, BEHAVIOURAL,
+     "a key that is written to two dictionaries in step is written to only one of them in some branch"),
+    ("format-before-inputs", lints.format_before_inputs, BEHAVIOURAL,
+     "a name template is expanded before a field it uses is assigned"),
+    ("falsy-numeric-option", lints.falsy_default_on_numeric_option, BEHAVIOURAL | {"C13"},
+     "a numeric option is replaced by a default through `or` (0 is a value)"),
+    ("singleton-shortcut", lints.singleton_shortcut_mismatch, BEHAVIOURAL,
+     "the shortcut for a single element tests the length of another list than the one it reads"),
+    ("early-exit-skips-traversal", lints.early_exit_skips_traversal, BEHAVIOURAL | {"C15"},
+     "the visit of one kind of children is skipped when another kind is empty"),
     ("memo-scope-owner", lints.memo_scope_owner_mismatch, BEHAVIOURAL,
      "a scope parented to one node is kept (setdefault) in a table that belongs to another node"),
     ("undefined-name", lints.undefined_names, BEHAVIOURAL | {"C17"},
